@@ -83,7 +83,7 @@ Definition oracle_of (T : tables) : oracle := {|
   o_lam_str := lam_of T;
   o_powi := powi_exec; o_fmt_prec := fmt_prec_exec; o_fmt_exp14 := fmt_exp14_exec;
   o_parse_f64 := parse_f64_exec;
-  o_now := match t_now T with Some b => Some (num_of_bits b) | None => None end
+  o_now := match t_now T with Some b => num_of_bits b | None => S754_nan end
 |}.
 
 Definition eval_run (T : tables) := eval_all (oracle_of T).
